@@ -278,6 +278,9 @@ MUTANTS = [
     dict(name="regress: weighted_mad without default 0", file=_D, old="@on_weighted_array(0)\ndef weighted_mad", new="@on_weighted_array()\ndef weighted_mad"),
     dict(name="regress: weighted_std without default 0", file=_D, old="@on_weighted_array(0)\ndef weighted_std", new="@on_weighted_array()\ndef weighted_std"),
     dict(name="regress: one-sided tie test", file=_D, old="and abs(cumulative_weight[midpoint_idx] - midpoint) < sys.float_info.epsilon", new="and cumulative_weight[midpoint_idx] - midpoint < sys.float_info.epsilon"),
+    dict(name="seeded C19c: modal_location fits the density to the distinct values", file=_D, old="    sarr = np.sort(a)\n    if sarr[0] == sarr[-1]:", new="    sarr = np.unique(a)\n    if len(sarr) == 1:"),
+    dict(name="twin: constant-data guard through np.unique, density from all values", expect="silent", file=_D, old="    sarr = np.sort(a)\n    if sarr[0] == sarr[-1]:", new="    sarr = np.sort(a)\n    if len(np.unique(a)) == 1:"),
+    dict(name="MAD of the distinct values", file=_D, old="    a_median = np.median(a)\n    mad = np.median(np.abs(a - a_median))", new="    a = np.unique(a)\n    a_median = np.median(a)\n    mad = np.median(np.abs(a - a_median))"),
     dict(name="regress: modal_location on constant data", file=_D, old="    if sarr[0] == sarr[-1]:\n        # All values equal: no density to estimate (gaussian_kde would fail)\n        return sarr[0]\n", new=""),
     dict(name="remove decorator of gapper_scale", file=_D, old="@on_array(0)\ndef gapper_scale", new="def gapper_scale"),
     dict(name="location estimator with default 0", file=_D, old="@on_array()\ndef modal_location", new="@on_array(0)\ndef modal_location"),
